@@ -92,6 +92,7 @@ type State struct {
 	epoch  int
 	leaked map[int]bool      // locals whose address escaped on the paths leading here
 	pub    map[int]*Val      // content of a local as last copied into the heap (nil entry: not current)
+	lastRes map[string]*Val // ghost: callee name -> result of the most recent call on this path
 	called map[string]string // ghost: callee name -> Bool term "a call to it was executed on the way here"
 }
 
@@ -99,6 +100,10 @@ func (s *State) clone() *State {
 	n := &State{reach: s.reach, epoch: s.epoch, cells: make(map[int]*Val, len(s.cells)), heap: make(map[string]string, len(s.heap)), leaked: make(map[int]bool, len(s.leaked))}
 	for k := range s.leaked {
 		n.leaked[k] = true
+	}
+	n.lastRes = make(map[string]*Val, len(s.lastRes))
+	for k, v := range s.lastRes {
+		n.lastRes[k] = v
 	}
 	n.called = make(map[string]string, len(s.called))
 	for k, v := range s.called {
